@@ -18,6 +18,45 @@ from xdeps.general import _print
 
 _print.suppress = True
 
+import xdeps.optimize.optimize as OO
+import xdeps.optimize.jacobian as JJ
+
+TRACE = []     # merit calls / solver-step delimiters / solver.x assignments of the current API call
+
+_orig_call = OO.MeritFunctionForMatch.__call__
+
+
+def _logged_call(self, x=None, check_limits=None, return_scalar=None, zero_if_met=None):
+    TRACE.append(["m", None if x is None else [fbits(v) for v in np.atleast_1d(x)], check_limits])
+    return _orig_call(self, x, check_limits=check_limits, return_scalar=return_scalar, zero_if_met=zero_if_met)
+
+
+OO.MeritFunctionForMatch.__call__ = _logged_call
+_orig_step = JJ.JacobianSolver.step
+
+
+def _logged_step(self, *a, **k):
+    TRACE.append(["S"])
+    try:
+        r = _orig_step(self, *a, **k)
+    except Exception as e:
+        TRACE.append(["E", type(e).__name__])
+        raise
+    TRACE.append(["E", None])
+    return r
+
+
+JJ.JacobianSolver.step = _logged_step
+_x_prop = JJ.JacobianSolver.x
+
+
+def _x_set(self, v):
+    TRACE.append(["X"])
+    _x_prop.fset(self, v)
+
+
+JJ.JacobianSolver.x = property(_x_prop.fget, _x_set)
+
 
 def fbits(x):
     return struct.pack("<d", float(x)).hex()
@@ -40,15 +79,16 @@ class UserRaise(Exception):
 
 
 class Act(xd.Action):
-    def __init__(self, box, fun, names, log, raise_at=None):
+    def __init__(self, box, fun, names, log, raise_region=None):
         self.box, self.fun, self.names, self.log = box, fun, names, log
         self.ncalls = 0
-        self.raise_at = raise_at
+        self.raise_region = raise_region      # (knob index, lo, hi): the action fails outside [lo, hi]
 
     def run(self):
         self.ncalls += 1
         x = np.array([self.box[n] for n in self.names], dtype=float)
-        if self.raise_at is not None and self.ncalls == self.raise_at:
+        rr = self.raise_region
+        if rr is not None and not (rr[1] <= x[rr[0]] <= rr[2]):
             self.log.append(["f", [fbits(v) for v in x], None])
             raise UserRaise("user action fails")
         y = self.fun(x)
@@ -93,7 +133,7 @@ def build(case):
             kw["weight"] = k["weight"]
         vary.append(xd.Vary(n, box, step=k.get("step", 1e-7), tag=k.get("tag", ""), **kw))
     fun = mkfun(spec)
-    act = Act(box, fun, names, log, spec.get("raise_at"))
+    act = Act(box, fun, names, log, spec.get("raise_region"))
     tars = []
     for i, t in enumerate(spec["targets"]):
         tt = act.target(i, t.get("value", 0.0), tol=t["tol"], tag=t.get("tag", ""))
@@ -153,9 +193,14 @@ def run_case(case, fail, stats):
     for call in case["calls"]:
         name, args = call[0], (call[1] if len(call) > 1 else {})
         log.clear()
+        TRACE.clear()
         k_before = [box[n] for n in names]
         f_before = flags(opt)
         nrows0 = nrows_of(opt._log)
+        pre = {"knobs": [fbits(v) for v in k_before], "vact": f_before[0], "tact": f_before[1],
+               "solverx": None if opt.solver.x is None else [fbits(v) for v in opt.solver.x],
+               "last_within": bool(getattr(opt._err, "last_point_within_tol", False)),
+               "log": [{"knobs": r["knobs"], "vary_active": r["vary_active"], "target_active": r["target_active"]} for r in rows_of(opt)]}
         exc = "ok"
         try:
             if name == "solve":
@@ -184,7 +229,9 @@ def run_case(case, fail, stats):
         f_after = flags(opt)
         L = opt._log
         events.append({"call": call, "exc": exc, "events": list(log), "knobs": [fbits(v) for v in k_after],
-                       "flags": list(f_after), "rows": rows_of(opt)[nrows0:] if name != "clear_log" else rows_of(opt)})
+                       "flags": list(f_after), "rows": rows_of(opt)[nrows0:] if name != "clear_log" else rows_of(opt),
+                       "pre": pre, "trace": list(TRACE), "nrows0": nrows0,
+                       "last_within": bool(getattr(opt._err, "last_point_within_tol", False))})
         stats["calls"] += 1
         stats["call:" + name] = stats.get("call:" + name, 0) + 1
         stats["exc:" + exc] = stats.get("exc:" + exc, 0) + 1
@@ -202,7 +249,7 @@ def run_case(case, fail, stats):
                         break
             else:
                 stats["solve_raise"] += 1
-                if spec.get("restore_if_fail", True) and len(L["knobs"]) > 0:
+                if spec.get("restore_if_fail", True) and nrows_of(L) > 0:
                     row0 = L["knobs"][0]
                     for i in range(nk):
                         if not close(k_after[i], row0[i], unit):
@@ -211,7 +258,7 @@ def run_case(case, fail, stats):
                     if f_after != (L["vary_active"][0], L["target_active"][0]):
                         fail("C09", "flags-not-restored", {"exc": exc, "flags": f_after, "iteration0": [L["vary_active"][0], L["target_active"][0]]})
         # ---------------- C10 ----------------
-        if start_inside and spec.get("raise_at") is None:
+        if start_inside:
             in_limits(k_after, "container after " + name)
             for r in range(nrows0, nrows_of(L)):
                 if not in_limits(L["knobs"][r], "log row %d" % r):
@@ -259,7 +306,7 @@ def run_case(case, fail, stats):
                 if final_pen > pens[0] * (1 + 1e-12) + 1e-300:
                     fail("C15", "ended-worse-than-start", {"start": float(pens[0]), "end": float(final_pen)})
     # ---------------- C15: every row reloads to itself ----------------
-    if case.get("check_rows", True) and spec.get("raise_at") is None:
+    if case.get("check_rows", True):
         L = opt._log
         nrows = nrows_of(L)
         rows = [(list(L["knobs"][r]), L["penalty"][r], L["vary_active"][r], L["target_active"][r], list(L["targets"][r])) for r in range(nrows)]
@@ -267,7 +314,7 @@ def run_case(case, fail, stats):
             try:
                 opt.reload(r)
             except Exception as e:
-                if start_inside:
+                if start_inside and not isinstance(e, UserRaise):
                     fail("C15", "reload-raises", {"row": r, "exc": type(e).__name__})
                 continue
             stats["rows_reloaded"] += 1
@@ -278,6 +325,10 @@ def run_case(case, fail, stats):
                     break
             if flags(opt) != (va, ta):
                 fail("C15", "reload-flags-differ", {"row": r, "flags": flags(opt), "logged": [va, ta]})
+            lens = set(len(L[k]) for k in ("penalty", "knobs", "targets", "vary_active", "target_active", "tol_met", "alpha", "tag"))
+            if len(lens) > 1:
+                fail("C15", "log-columns-misaligned", {"lengths": {k: len(L[k]) for k in ("penalty", "knobs", "targets", "tag")}})
+                break
             y = np.array(fun(np.array(kk, dtype=float)), dtype=float)
             mo = np.array([ch == "y" for ch in ta])
             w = np.array([t.weight for t in opt.targets], dtype=float)
@@ -290,6 +341,107 @@ def run_case(case, fail, stats):
             if not np.allclose(y, np.array(tv, dtype=float), rtol=1e-6, atol=1e-9):
                 fail("C15", "logged-targets-not-reproducible", {"row": r})
     return events
+
+
+def reconstruct_iters(trace):
+    """the solver's choice of evaluation points, read off the recorded merit calls: per JacobianSolver.step
+    block the start point, the Jacobian perturbations (check_limits=False), the bisection trials, and
+    whether the penalty-increase path (re-evaluation at the start point, then ValueError) was taken"""
+    its = []
+    x_since = False
+    seen_first_m = False
+    i = 0
+    while i < len(trace):
+        ev = trace[i]
+        if ev[0] == "X":
+            x_since = seen_first_m       # solve()'s own assignment precedes the start-row evaluation
+        elif ev[0] == "m" and not its:
+            seen_first_m = True
+        if ev[0] == "S":
+            j = i + 1
+            ms = []
+            while j < len(trace) and trace[j][0] != "E":
+                if trace[j][0] == "m":
+                    ms.append(trace[j])
+                j += 1
+            exc = trace[j][1] if j < len(trace) else "?"
+            if not ms:
+                return None
+            x0 = ms[0][1]
+            if len(ms) == 1:
+                its.append({"resync": x_since, "early": True, "jac": [], "trials": [], "last": x0, "pe": False})
+            else:
+                k = 1
+                jac = []
+                while k < len(ms) and ms[k][2] is False:
+                    jac.append(ms[k][1])
+                    k += 1
+                rest = [m[1] for m in ms[k:]]
+                pe = bool(exc == "ValueError" and len(rest) >= 2 and rest[-1] == x0)
+                if pe:
+                    rest = rest[:-1]
+                if rest:
+                    its.append({"resync": x_since, "early": False, "jac": jac, "trials": rest[:-1], "last": rest[-1], "pe": pe})
+                else:
+                    its.append({"resync": x_since, "early": False, "jac": jac, "trials": [], "last": x0, "pe": False})
+            x_since = False
+            i = j
+        i += 1
+    return its
+
+
+def driver_line(case, e):
+    """one protocol line of the `opt` suite for one API call, or None when the call is outside the model"""
+    name, args = e["call"][0], (e["call"][1] if len(e["call"]) > 1 else {})
+    spec = case["problem"]
+    if name not in ("solve", "step", "reload", "tag"):
+        return None
+    if name == "step" and any(k in args for k in ("disable_target", "disable_vary", "disable_vary_name", "enable_target", "enable_vary", "enable_vary_name")):
+        return None
+    if e["exc"] not in ("ok", "UserRaise", "RuntimeError", "ValueError"):
+        return None          # numerical failures inside numpy (LinAlgError, ...) are outside the model
+    knobs = spec["knobs"]
+    ftable = []
+    for ev in e["events"]:
+        if ev[0] == "f":
+            ftable.append([ev[1], ev[2]])
+    problem = {"n": spec["nk"], "nt": len(spec["targets"]),
+               "weights": [fbits(k.get("weight") if k.get("weight") is not None else 1.0) for k in knobs],
+               "limits": [None if k.get("limits") is None else [fbits(k["limits"][0]), fbits(k["limits"][1])] for k in knobs],
+               "tvalue": [fbits(t.get("value", 0.0)) for t in spec["targets"]],
+               "ttol": [fbits(t["tol"]) for t in spec["targets"]],
+               "ftable": ftable, "assert": spec.get("assert_within_tol", True), "restore": spec.get("restore_if_fail", True)}
+    call = {"kind": name}
+    if name in ("solve", "step"):
+        its = reconstruct_iters(e["trace"])
+        if its is None:
+            return None
+        call["its"] = its
+        take_best = args.get("take_best", True)
+        if take_best and e["exc"] == "ok":
+            rows = e["rows"]
+            pens = [r["penalty"] for r in rows]
+            if rows and rows[-1]["tag"] == "take_best":
+                pens = pens[:-1]
+            call["pens"] = pens
+            call["log_start"] = e["nrows0"]
+        elif take_best and e["exc"] != "ok" and name == "solve":
+            # solve(): the failure may be the final assert after a completed step(); rows up to the restore row
+            rows = e["rows"]
+            if rows and e["exc"] == "RuntimeError":
+                pens = [r["penalty"] for r in rows[:-1]]
+                if pens and rows[-2]["tag"] == "take_best" if len(rows) >= 2 else False:
+                    pens = pens[:-1]
+                call["pens"] = pens
+                call["log_start"] = e["nrows0"]
+    elif name == "reload":
+        i = args["i"]
+        call["i"] = i if i < len(e["pre"]["log"]) else 0
+    cat = {"ok": ["ok"], "UserRaise": ["user"], "RuntimeError": ["noTol"], "ValueError": ["limit", "penalty"]}[e["exc"]]
+    return {"op": "call", "problem": problem, "pre": e["pre"], "call": call,
+            "impl": {"exc": cat, "knobs": e["knobs"], "vact": e["flags"][0], "tact": e["flags"][1],
+                     "rows": [{"knobs": r["knobs"], "vary_active": r["vary_active"], "target_active": r["target_active"]} for r in e["rows"]],
+                     "last_within": e["last_within"]}}
 
 
 # ----------------------------------------------------------------------------
@@ -331,7 +483,8 @@ def gen_problem(rng, klass=None):
     spec = {"class": klass, "kind": kind, "nk": nk, "A": A, "b": b, "knobs": knobs, "targets": targets,
             "n_steps_max": rng.choice([1, 3, 10, 20])}
     if klass == "raise":
-        spec["raise_at"] = rng.randint(3, 12)
+        rad = rng.choice([0.05, 0.2, 0.5, 1.0, 2.0])
+        spec["raise_region"] = [0, knobs[0]["init"] - rad, knobs[0]["init"] + rad]
     return spec
 
 
@@ -424,8 +577,14 @@ def main():
         line = dict(case)
         line["op"] = "case"
         line["hist"] = i
-        line["impl"] = {"calls": ev}
+        line["impl"] = {}
         lines.append(line)
+        for e in (ev or []):
+            dl = driver_line(case, e)
+            if dl is not None:
+                dl["hist"] = i
+                lines.append(dl)
+                stats["driver_lines"] = stats.get("driver_lines", 0) + 1
     with open(a.out + ".ops.jsonl", "w") as f:
         for ln in lines:
             f.write(json.dumps(ln) + "\n")
